@@ -153,8 +153,23 @@ fn date_candidates(input: &[u8]) -> Vec<Vec<u8>> {
     let mut out: Vec<Vec<u8>> = Vec::new();
     let opens: Vec<usize> = (0..input.len()).filter(|i| input[*i] == b'{').collect();
     let closes: Vec<usize> = (0..input.len()).filter(|i| input[*i] == b'}').collect();
+    // the nearest closing brace of every opening one first (what the parser takes unless braces are
+    // escaped or nested), then all other pairs, so that the cap never drops the likely candidates
+    let mut pairs: Vec<(usize, usize)> = Vec::new();
+    for &i in &opens {
+        if let Some(&j) = closes.iter().find(|j| **j > i) {
+            pairs.push((i, j));
+        }
+    }
     for &i in &opens {
         for &j in closes.iter().filter(|j| **j > i) {
+            if !pairs.contains(&(i, j)) {
+                pairs.push((i, j));
+            }
+        }
+    }
+    {
+        for &(i, j) in &pairs {
             let raw = &input[i + 1..j];
             let mut un = Vec::new();
             let mut k = 0;
@@ -168,7 +183,7 @@ fn date_candidates(input: &[u8]) -> Vec<Vec<u8>> {
                 }
             }
             for c in [raw.to_vec(), un] {
-                if !out.contains(&c) && out.len() < 24 {
+                if !out.contains(&c) && out.len() < 48 {
                     out.push(c);
                 }
             }
